@@ -925,6 +925,32 @@ impl<'s> Walker<'s> {
                 let pc_start = self.src.off(m.paren_token.span.close().start());
                 let mut handled_collect = false;
                 match mname.as_str() {
+                    "fold" if matches!(&*m.receiver, MethodCall(inner) if inner.method == "map" && inner.args.len() == 1) => {
+                        // `.map(F).fold(init, G)`  ->  verif_map_fold(RECV, F, init, G, Ghost(inv))
+                        if let MethodCall(inner) = &*m.receiver {
+                            self.folds += 1;
+                            let key = format!("F{}", self.folds);
+                            let inv = self.ov.folds.get(&key).cloned().unwrap_or_else(|| die(&format!("lost anchor: fold `{}` has no @fold overlay (invariant) at {}:{}", key, self.src.path, self.src.line_of(es))));
+                            self.used.insert(format!("fold:{}", key));
+                            let (_, ire) = self.src.range(inner.receiver.span());
+                            let ipo_end = self.src.off(inner.paren_token.span.open().end());
+                            let ipc_start = self.src.off(inner.paren_token.span.close().start());
+                            self.open(es, "verif_map_fold(", "R13");
+                            self.replace((ire, ipo_end), ", ", "R13");
+                            self.replace((ipc_start, po_end), ", ", "R13");
+                            let lead = if m.args.trailing_punct() { "" } else { ", " };
+                            self.close(pc_start, &format!("{}Ghost({})", lead, inv), "R13");
+                            self.walk_expr(&inner.receiver);
+                            for a in inner.args.iter() {
+                                self.walk_arg_hof(a, true);
+                            }
+                            for a in m.args.iter() {
+                                self.walk_arg_hof(a, true);
+                            }
+                            self.depth -= 1;
+                            return;
+                        }
+                    }
                     "fold" => {
                         self.folds += 1;
                         let key = format!("F{}", self.folds);
